@@ -84,8 +84,8 @@ VS(i) == LET ws == Templates[i].vars IN
 NCalls(i) == IF PreError(TM(i), VS(i)) \/ NoWork(TM(i), VS(i)) THEN 0 ELSE Total(VS(i))
 
 Init == /\ ti \in DOMAIN Templates /\ si \in DOMAIN PolicySets
-        /\ fault \in [kind : {"none", "fail", "cancel"}, at : 1..13]
-        /\ (fault.kind = "none" => fault.at = 1)
+        /\ fault \in [kind : {"none", "fail", "cancel", "precancel"}, at : 1..13]
+        /\ (fault.kind \in {"none", "precancel"} => fault.at = 1)
         /\ fault.at <= NCalls(ti) + 1
         /\ done = FALSE
 Next == ~done /\ done' = TRUE /\ UNCHANGED <<ti, si, fault>>
@@ -94,7 +94,8 @@ Case == LET T == Templates[ti]
             tm == TM(ti)
             vs == VS(ti)
             ps == PolicySetFromWire(PolsOf(si))
-            pre == IF PreError(tm, vs) THEN "error" ELSE IF NoWork(tm, vs) THEN "nowork" ELSE "run"
+            pre == IF PreError(tm, vs) THEN "error" ELSE IF fault.kind = "precancel" THEN "precancel"
+                   ELSE IF NoWork(tm, vs) THEN "nowork" ELSE "run"
             bag == IF pre = "run" THEN ExpectedBag(ps, tm, vs) ELSE <<>>
         IN [op |-> "batch", policies |-> PolsOf(si), template |-> T.t, vars |-> T.vars, fault |-> fault,
             exp |-> [pre |-> pre, total |-> IF pre = "run" THEN Total(vs) ELSE 0,
